@@ -103,6 +103,8 @@ class World:
         self.last_sync_gate = None
         self.after_end = []           # observations made after the caller's task finished
         self.saved = []               # (run, node) of every artifact_store.save that ran to completion
+        self.obs2 = []                # what the second event manager sees: [kind, run, node, error, position in the obs stream]
+        self.obs_taken = 0            # observations handed out so far (positions in the obs stream)
         self.topo = []
         self.classes, self.source = progen.build_classes(spec, self)
         with progen.det_uuids(spec):
@@ -160,6 +162,28 @@ class World:
                                   None if error is None else progen.exc_ident(error)])
                 await _yields('ncomplete', i)
 
+        class Events2:
+            """a second event manager, registered after the first: it never suspends and never raises (so the run is
+            scheduled exactly as with the first one alone); it records what it is told and when, relative to the
+            observation stream"""
+
+            @staticmethod
+            def _rec(kind, node_id, x):
+                i = world.index_of.get(node_id, -1) if node_id is not None else None
+                world.obs2.append([kind, _rid(), i, x, world.obs_taken + len(world.obs)])
+
+            async def on_pipeline_start(self, ctx):
+                self._rec('pstart', None, None)
+
+            async def on_pipeline_complete(self, ctx, result):
+                self._rec('pcomplete', None, _res_canon(result))
+
+            async def on_node_start(self, ctx, node_id):
+                self._rec('nstart', node_id, None)
+
+            async def on_node_complete(self, ctx, node_id, error):
+                self._rec('ncomplete', node_id, None if error is None else progen.exc_ident(error))
+
         class Store:
             def __init__(self, ctx):
                 self.ctx = ctx
@@ -184,7 +208,7 @@ class World:
             return ['value', progen.canon(result.value)]
 
         self._res_canon = _res_canon
-        self.chart = PipelineChart(model_name='m', entrypoint=self.dag, event_managers=[Events],
+        self.chart = PipelineChart(model_name='m', entrypoint=self.dag, event_managers=[Events, Events2],
                                    artifact_store=Store if record_store else None)
         # virtual pools
         self._saved_pools = (threads_pool_registry._pool_executor, process_pool_registry._pool_executor,
@@ -228,6 +252,7 @@ class World:
             if o[0] == 'spawn' and not isinstance(o[2], list):
                 o = ['spawn', o[1], self._task_name(o[2])]
             out.append(o)
+        self.obs_taken += len(self.obs)
         self.obs = []
         return out
 
@@ -564,6 +589,7 @@ def run_program(spec, policy, n_runs=1, inputs=None, drain=True, world=None, kee
             'graph': w.graph, 'spec': spec, 'events': events, 'after': after, 'leftover_tasks': leftovers,
             'live_gates_at_end': [g.key for g in w.live_gates()],
             'saved_completed': [list(x) for x in w.saved],
+            'obs2': [list(x) for x in w.obs2],
             'live_timers_at_end': len(loop.live_timers()),
             'verdict': verdict,
             'results': [list(c.result) if c.result else (['cancelled'] if c.task.cancelled() else None) for c in ctxs],
